@@ -280,6 +280,12 @@ var c01Wraps = []c01Wrap{
 	{"fn-body", func(e *c01Env, in string) string { return `<% let ff = fn() { %>` + in + `<% } %><%= ff() %>` }, "", ""},
 	{"helper-block", func(e *c01Env, in string) string { return `<%= blk() { %>` + in + `<% } %>` }, "{", "}"},
 	{"helper-blockwith", func(e *c01Env, in string) string { return `<%= bwith() { %>` + in + `<% } %>` }, "(", ")"},
+	{"for-helper-block-ending-in-break", func(e *c01Env, in string) string {
+		return `<%= for (w) in one { %><%= blk() { %>` + in + `<% break %>never<% } %>never<% } %>`
+	}, "{", "}"},
+	{"for-helper-blockwith-ending-in-continue", func(e *c01Env, in string) string {
+		return `<%= for (w) in one { %><%= bwith() { %>` + in + `<% if (true) { continue } %>never<% } %>never<% } %>`
+	}, "(", ")"},
 	{"contentFor", func(e *c01Env, in string) string {
 		return `<% contentFor("cw") { %>` + in + `<% } %><%= contentOf("cw") %>`
 	}, "", ""},
@@ -374,7 +380,7 @@ func init() {
 			return s
 		},
 		Run:  c01Run,
-		Rule: "payload x source x value-route^d x emit-form x wrapper^e. Sources (28): context string, struct / pointer-struct field, map[string]string and map[string]interface{} value, []string / []interface{} / nested slice element (literal and variable index), whole []string / []interface{}, Go helper returning string / interface{}, user-function result, double- and back-quoted literal, and the trusted ones: template.HTML variable, HTMLer, raw(x), helper returning template.HTML, template.HTML / HTMLer struct fields, []template.HTML and []interface{} elements, map[string]template.HTML value, mixed []interface{}, a value that is both HTMLer and fmt.Stringer; and a plain fmt.Stringer (by value and by pointer), whose text is a Go string and therefore escaped; values of a named string type (directly, in a slice, as a struct field: printed escaped or not at all); debug(x), whose pre tags are markup and whose printed argument is data. Value routes (12, incl. a template function with literal text before its return): \"\"+x, x+\"\", x+x, x+raw(), [x][0], [x,x], [raw(),x,raw()], {k:x}[k], Go identity helpers (string / interface{}), user function. Emit forms (11, incl. partial data under the key the layout mechanism uses, yield): output tag, return from if / for / fn, let then emit, loop variable, partial data, contentOf data, function argument emitted inside the body, Go helper result when the helper was called with a block. Wrappers (12): top, if, else, for, fn body, helper block via Block() / BlockWith(), contentFor->contentOf (with and without data), contentOf default block, partial, partial with layout. A reference evaluator over the route gives the expected atom list (plain | trusted | literal frame); the output is walked along it: a plain atom must appear with every < > & ' \" as an entity (any spelling) and every other byte unchanged, a trusted atom byte-identical, nothing dropped, nothing emitted twice. (js) every single-value source as data of a .html partial rendered under a JavaScript content type: JSEscape of the HTML-escaped (plain) or verbatim (trusted) value. (timeformat) every payload as literal text of the context's TIME_FORMAT, a time printed in 5 ways. (typed) every scalar source and depth-1 route passed to Go helpers whose parameter (fixed, second, variadic) is typed template.HTML: plain strings are refused or stay escaped, trusted HTML passes verbatim. (bytes) every single byte 0x01..0xFF and (short) every string of length <=3 over {< > & ' \" a &amp; é 世 \\xff} through every source and the direct emit forms. Non-trivial: payload contains a special character and the route has depth >= 1.",
+		Rule: "payload x source x value-route^d x emit-form x wrapper^e. Sources (28): context string, struct / pointer-struct field, map[string]string and map[string]interface{} value, []string / []interface{} / nested slice element (literal and variable index), whole []string / []interface{}, Go helper returning string / interface{}, user-function result, double- and back-quoted literal, and the trusted ones: template.HTML variable, HTMLer, raw(x), helper returning template.HTML, template.HTML / HTMLer struct fields, []template.HTML and []interface{} elements, map[string]template.HTML value, mixed []interface{}, a value that is both HTMLer and fmt.Stringer; and a plain fmt.Stringer (by value and by pointer), whose text is a Go string and therefore escaped; values of a named string type (directly, in a slice, as a struct field: printed escaped or not at all); debug(x), whose pre tags are markup and whose printed argument is data. Value routes (12, incl. a template function with literal text before its return): \"\"+x, x+\"\", x+x, x+raw(), [x][0], [x,x], [raw(),x,raw()], {k:x}[k], Go identity helpers (string / interface{}), user function. Emit forms (11, incl. partial data under the key the layout mechanism uses, yield): output tag, return from if / for / fn, let then emit, loop variable, partial data, contentOf data, function argument emitted inside the body, Go helper result when the helper was called with a block. Wrappers (14, incl. a helper block inside a loop that ends with break / continue after the value): top, if, else, for, fn body, helper block via Block() / BlockWith(), contentFor->contentOf (with and without data), contentOf default block, partial, partial with layout. A reference evaluator over the route gives the expected atom list (plain | trusted | literal frame); the output is walked along it: a plain atom must appear with every < > & ' \" as an entity (any spelling) and every other byte unchanged, a trusted atom byte-identical, nothing dropped, nothing emitted twice. (js) every single-value source as data of a .html partial rendered under a JavaScript content type: JSEscape of the HTML-escaped (plain) or verbatim (trusted) value. (timeformat) every payload as literal text of the context's TIME_FORMAT, a time printed in 5 ways. (typed) every scalar source and depth-1 route passed to Go helpers whose parameter (fixed, second, variadic) is typed template.HTML: plain strings are refused or stay escaped, trusted HTML passes verbatim. (bytes) every single byte 0x01..0xFF and (short) every string of length <=3 over {< > & ' \" a &amp; é 世 \\xff %> <%} through every source and the direct emit forms. Non-trivial: payload contains a special character and the route has depth >= 1.",
 		Bound: func(th bool) string {
 			if th {
 				return "9 payloads x value routes d<=2 x 10 emit forms x wrappers e<=2"
@@ -410,6 +416,11 @@ func c01Case(t *engine.T, p string, x c01Expr, em c01Emit, wraps []int, nontrivi
 	var wn []string
 	for _, w := range wraps {
 		wn = append(wn, c01Wraps[w].name)
+	}
+	for _, n := range wn {
+		if strings.HasPrefix(n, "for-helper") && (em.name == "if-return" || em.name == "for-return") {
+			return // a return ends the helper's block before its break / continue is reached
+		}
 	}
 	desc := fmt.Sprintf("payload=%q %s emit=%s wrap=%s", p, x.name, em.name, strings.Join(wn, ">"))
 	t.Case(desc, nontrivial, func() (string, *engine.Fail) {
@@ -464,7 +475,7 @@ func c01Run(t *engine.T, shard string) {
 			}
 		}
 	case "short":
-		sigma := []string{"<", ">", "&", "'", `"`, "a", "&amp;", "é", "世", "\xff"}
+		sigma := []string{"<", ">", "&", "'", `"`, "a", "&amp;", "é", "世", "\xff", "%>", "<%"}
 		c02Strings(3, sigma, func(p string) {
 			for _, x := range c01Exprs(p, 0) {
 				c01Case(t, p, x, c01Emits[0], []int{0}, strings.ContainsAny(p, `<>&'"`))
